@@ -1568,7 +1568,11 @@ where
                             pending_writes.push(do_write(tx, false));
                             true
                         }
-                        _ => false,
+                        _ => {
+                            //There was nothing to write: keep the writer for the next time the item has data.
+                            item_writers.insert(*id, tx);
+                            false
+                        }
                     }
                 } else {
                     true
